@@ -32,8 +32,10 @@ class P(ServeProp):
             body = rnd.choice([b"", b"a", b"ab", b"abc", b"\r\n", b"\n", b"\r", b"x\r\n", b"\r\nx", b"--", b"-", b"a\r", b"line1\r\nline2", b"\n\n", b"\r\n\r\n", bytes(range(256))])
         elif r < 0.9:
             body = bytes(rnd.randrange(256) for _ in range(rnd.randint(0, 60)))
+        elif r < 0.98:
+            body = bytes(rnd.randrange(256) for _ in range(rnd.choice([200, 1000, 4000])))
         else:
-            body = bytes(rnd.randrange(256) for _ in range(big))
+            body = bytes(rnd.randrange(256) for _ in range(big))      # the extracted model appends at list ends: quadratic on these, so they are few
         return hs, body
 
     def gen(self, rnd, tier, n):
